@@ -148,10 +148,13 @@ def gen_hw(rng):
     if isect:
         shared = [l for l in lo if sum(1 for t in inputs if l in tranks(t)) >= 2]
         if shared:
-            r = rng.choice(shared)
-            b += "  - component: Isect\n    bindings:\n    - rank: %s\n" % r
-            if isect == "leader-follower":
-                b += "      leader: %s\n" % rng.choice([t for t in inputs if r in tranks(t)])
+            # one intersector bound to one or two ranks of the Einsum, each with its own leader
+            rs = rng.sample(shared, 2 if len(shared) >= 2 and rng.random() < 0.4 else 1)
+            b += "  - component: Isect\n    bindings:\n"
+            for r in rs:
+                b += "    - rank: %s\n" % r
+                if isect == "leader-follower":
+                    b += "      leader: %s\n" % rng.choice([t for t in inputs if r in tranks(t)])
     if merger:
         b += "  - component: Mrg\n    bindings:\n    - tensor: %s\n      init-ranks: [%s]\n      final-ranks: [%s]\n" % (merger[0], ", ".join(merger[1]), ", ".join(merger[2]))
     if has_mul:
@@ -184,6 +187,20 @@ def hw_core():
             b = "bindings:\n  Z:\n  - config: Accel\n    prefix: tmp/%s\n  - component: Isect\n    bindings:\n    - rank: %s\n      leader: %s\n  - component: FPMul\n    bindings:\n    - op: mul\n" % (name, rank, L)
             out.append({"yaml": y + fmt + arch + b, "configs": [{r: (2 if name == "three3L" else 3) for rs in decl.values() for r in rs}], "family": "hw-core-" + name, "key": name + L,
                         "hw": True, "plain_yaml": y, "arch": {}, "cap": 30})
+    # ONE leader-follower intersector bound to two ranks of the Einsum, every combination of leaders
+    two = [("twoL", {"A": ["K", "M", "I"], "B": ["K", "M", "J"], "Z": ["I", "J"]}, "Z[i, j] = A[k, m, i] * B[k, m, j]", ["K", "M", "I", "J"], ("K", "M")),
+           ("twoLe", {"A": ["M", "K"], "B": ["M", "K"], "Z": ["M"]}, "Z[m] = A[m, k] * B[m, k]", ["M", "K"], ("M", "K"))]
+    for name, decl, expr, lo, (r1, r2) in two:
+        ro = {t: concord(r, lo) for t, r in decl.items()}
+        y = mk_yaml(decl, [expr], ro=ro, lo={"Z": lo}, st={"Z": {"space": [], "time": lo}})
+        fmt = "format:\n" + "".join("  %s:\n    default:\n      rank-order: [%s]\n" % (t, ", ".join(ro[t])) + "".join("      %s:\n        format: C\n        pbits: 32\n" % r for r in ro[t]) for t in decl)
+        for L1 in ("A", "B"):
+            for L2 in ("A", "B"):
+                arch = "architecture:\n  Accel:\n  - name: System\n    attributes:\n      clock_frequency: 3\n    local:\n    - name: Isect\n      class: Intersector\n      attributes:\n        type: leader-follower\n    - name: FPMul\n      class: Compute\n      attributes:\n        type: mul\n"
+                b = ("bindings:\n  Z:\n  - config: Accel\n    prefix: tmp/%s\n  - component: Isect\n    bindings:\n    - rank: %s\n      leader: %s\n    - rank: %s\n      leader: %s\n"
+                     "  - component: FPMul\n    bindings:\n    - op: mul\n" % (name, r1, L1, r2, L2))
+                out.append({"yaml": y + fmt + arch + b, "configs": [{r: 2 for rs in decl.values() for r in rs}], "family": "hw-core-" + name, "key": name + L1 + L2,
+                            "hw": True, "plain_yaml": y, "arch": {}, "cap": 30})
     out += eager_core()
     out += flatten_core()
     return out
